@@ -68,9 +68,16 @@ def run(run: common.Run):
             rf = RasterFuse(pair.src_path, pair.ref_path)
             with rf:
                 with sc.install(rf, ctrl) as outs:
+                    # every fourth plan writes its outputs with another driver than the default GeoTIFF (Erdas Imagine / ENVI): a failed
+                    # block must be as loud there
+                    op = [None, None, dict(driver='HFA', dtype='float32', nodata=float('nan'), creation_options=dict(COMPRESSED='YES')),
+                          None, None, None, dict(driver='ENVI', dtype='float32', nodata=float('nan'), creation_options=dict(INTERLEAVE='BSQ')),
+                          None][idx % 8]
+                    case['driver'] = op['driver'] if op else 'GTiff'
+
                     def call():
                         rf.process(out, Model(model), kernel, param_filename=out.parent / (out.stem + '_PARAM.tif'), build_ovw=False,
-                                   overwrite=True, block_config=dict(threads=T, max_block_mem=mbm))
+                                   overwrite=True, block_config=dict(threads=T, max_block_mem=mbm), out_profile=op)
                     fin, r = sc.run_with_watchdog(call, timeout=60)
                     out_closed = [d.closed for d in outs.values() if d is not None]
                     locks = [l.locked() for l in (rf._src_lock, rf._ref_lock, rf._corr_lock, rf._param_lock)]
@@ -88,6 +95,7 @@ def run(run: common.Run):
             reader_closed = rf.closed
         run.evaluations += 1
         run.hist[f'site={site}'] += 1
+        run.hist[f"output driver={case['driver']}"] += 1
         run.hist[f'threads={T}'] += 1
         run.nontrivial.add((site, j, T))
         if not fin or ctrl.deadlock:
